@@ -166,6 +166,23 @@ type sdResult struct {
 	err       error
 }
 
+// safelyWithin: like safely, but a call that does not come back within the limit is reported as a hang and
+// left behind (its goroutine stays parked) instead of holding up the whole run
+func safelyWithin(limit time.Duration, what string, viol *[]Violation, rp map[string]any, f func()) {
+	done := make(chan []Violation, 1)
+	go func() {
+		var v []Violation
+		safely(what, &v, rp, f)
+		done <- v
+	}()
+	select {
+	case v := <-done:
+		*viol = append(*viol, v...)
+	case <-time.After(limit):
+		*viol = append(*viol, Violation{"c16.hang", fmt.Sprintf("%s did not return within %v", what, limit), rp})
+	}
+}
+
 func safely(what string, viol *[]Violation, rp map[string]any, f func()) {
 	defer func() {
 		if r := recover(); r != nil {
@@ -438,11 +455,11 @@ func runSdSchedule(pool bool, plans []sdPlan, expire bool, oneConn bool) (res sd
 	// 6. again, and together with Close
 	var e2 error
 	t0 := time.Now()
-	safely("second Shutdown", &res.viol, rp, func() { e2 = rig.s.Shutdown(context.Background()) })
+	safelyWithin(5*time.Second, "second Shutdown", &res.viol, rp, func() { e2 = rig.s.Shutdown(context.Background()) })
 	if e2 != nil || time.Since(t0) > 500*time.Millisecond {
 		res.viol = append(res.viol, Violation{"c16.second-shutdown", fmt.Sprintf("a second Shutdown returned %v after %v", e2, time.Since(t0)), rp})
 	}
-	safely("Close after Shutdown", &res.viol, rp, func() { rig.s.Close() })
+	safelyWithin(5*time.Second, "Close after Shutdown", &res.viol, rp, func() { rig.s.Close() })
 	// observation line
 	var per []string
 	for i := range plans {
@@ -546,6 +563,12 @@ func runC16(o *Out, r *rand.Rand) {
 		for _, v := range res.viol {
 			o.Violate(v.Kind, v.Detail, v.Replay)
 		}
+	}
+	// a Shutdown that hangs has been reported with its schedule: every further scenario would only wait for
+	// the same hang again (each until its own time limit)
+	if o.violationsOf("c16.hang")+o.violationsOf("c16.shutdown-hangs") > 0 {
+		o.Note("Shutdown hangs: the storm and overlap scenarios are skipped")
+		return
 	}
 	// storms: Shutdown x3 and Close concurrently, with a request in flight
 	storms := 6
